@@ -46,6 +46,7 @@ C_ATTRS = "ensures node.data is a FileSystemEntry carrying name, is_dir, size (i
 C_SORT = "ensures sort=True: each folder lists its files first, name-sorted, then its sub-directories, name-sorted"
 C_UNSORTED = "ensures sort=False: one child per entry in directory-listing order"
 C_NOEXC = "raises nothing for a directory tree of regular files and folders"
+C_RESCAN = "ensures a second scan of the same path mirrors the directory as it is then (files rewritten in place, entries added / removed in between)"
 C_ROUND = "ensures FileSystemTree.load(save(tree)) with the FileSystemTree mappers preserves structure, order and entry attributes"
 
 
@@ -306,7 +307,55 @@ def check_layout(layout, scratch: str, root_name: str, tier: str, only_cfg=None)
                 if obs2 != obs or problems2:
                     diffs.append((C_ROUND, f"{rt}: loaded tree holds {clip(obs2, 170)} {problems2[:2] or ''}; saved tree held {clip(obs, 170)}"))
             yield cfg, diffs, n_entries > 0
+    # ---- the directory changes and the same path is scanned again in the same process: nothing of the first scan may survive
+    if only_cfg is None or only_cfg.get("rescan"):
+        for step in ("files rewritten in place", "an entry added and one removed"):
+            cfg = {"sort": "default", "as_str": True, "rescan": step}
+            if only_cfg is not None and only_cfg.get("rescan") != step:
+                _change_directory(base, step)
+                continue
+            diffs = []
+            n_changed = _change_directory(base, step)
+            exp = model(base, True)
+            try:
+                tree = load_tree_from_fs(base)
+                obs, problems = observed(tree)
+                if _unordered(obs) != _unordered(exp):
+                    diffs.append((C_RESCAN, f"after '{step}': tree holds {_short(obs)}; directory holds {_short(exp)}"))
+                elif problems or _attrs(obs) != _attrs(exp):
+                    diffs.append((C_RESCAN, f"after '{step}': {'; '.join(problems[:3])} tree entries {clip(_attrs(obs), 150)}; os.stat says {clip(_attrs(exp), 150)}"))
+                elif _order_only(obs) != _order_only(exp):
+                    diffs.append((C_RESCAN, f"after '{step}': child order {_short(obs)}; required {_short(exp)}"))
+            except Exception as e:  # noqa: BLE001
+                diffs.append((C_NOEXC, f"second load_tree_from_fs after '{step}' raised {type(e).__name__}: {e}"))
+            yield cfg, diffs, n_changed > 0
     shutil.rmtree(base, ignore_errors=True)
+
+
+def _change_directory(base: str, step: str) -> int:
+    """Change the generated directory between two scans; the modification times of the *folders* are put back, so that
+    only a fresh look at every entry can tell.  Returns the number of changes."""
+    n = 0
+    for folder, _dirs, files in os.walk(base):
+        st = os.stat(folder)
+        if step == "files rewritten in place":
+            for k, f in enumerate(sorted(files)):
+                p = os.path.join(folder, f)
+                with open(p, "wb") as fp:
+                    fp.write(b"y" * (os.path.getsize(p) + 2 + k))
+                os.utime(p, (1_800_000_000 + k, 1_800_000_000 + k))
+                n += 1
+        else:
+            p = os.path.join(folder, "zz_new.bin")
+            with open(p, "wb") as fp:
+                fp.write(b"n" * 7)
+            os.utime(p, (1_600_000_123, 1_600_000_123))
+            n += 1
+            if files:
+                os.remove(os.path.join(folder, sorted(files)[0]))
+                n += 1
+        os.utime(folder, ns=(st.st_atime_ns, st.st_mtime_ns))
+    return n
 
 
 def _iterdir_model(folder):
